@@ -619,13 +619,20 @@ func gen(s *simrt.Sim, n *node, depth int) *val {
 			copy(v.b, genRawBytes(s, 32))
 		}
 	case kTime:
-		switch s.Choose(4) {
+		switch s.Choose(5) {
 		case 0:
 			v.u = 0
 		case 1:
 			v.u = math.MaxInt64
 		case 2:
 			v.u = uint64(1_700_000_000_000_000_000) + uint64(s.Choose(1<<16))
+		case 3:
+			// the last whole second of the int64 nanosecond range and its neighbourhood (saturation boundary)
+			lastSecond := uint64(math.MaxInt64/1_000_000_000) * 1_000_000_000
+			v.u = lastSecond - 2_000_000_000 + uint64(s.Choose(3))*1_000_000_000 + uint64(s.Choose(4))*250_000_000
+			if v.u > math.MaxInt64 {
+				v.u = math.MaxInt64
+			}
 		default:
 			v.u = genBits(s, 63)
 		}
